@@ -77,8 +77,11 @@ def _strategy(draw):
             for k in ("fuel_efficiency", "consumption_if_on", "start_fuel"):
                 c.pop(k, None)
             c["min_cap"] = max(c["min_cap"], 0.25 * c["max_cap"])
+        if draw(st.booleans()):
+            # one inner name contains the other, the longer one listed first (partners are resolved by name on loading)
+            c1["name"], c2["name"] = "x_c_aux", "x_c"
         a = {"type": "linked", "name": "x", "nodes": ["n0", "n1"], "assets": [c1, c2],
-             "asset1_variable": ["x_c2", "disp", "n0"], "asset2_variable": ["x_c1", "bool_on", None],
+             "asset1_variable": [c2["name"], "disp", "n0"], "asset2_variable": [c1["name"], "bool_on", None],
              "time_back": draw(st.sampled_from([0, 1])), "time_forward": draw(st.sampled_from([0, 0, 1])), "wacc": 0.0}
     else:
         a = gen.draw_asset(draw, cx, kind, "x")
